@@ -245,12 +245,15 @@ def stepEnv (s : Sys) : EnvOp → Sys
   | .devStop => if s.devUp then { s with devUp := false, dev := [] } else s
   | .devStart => if s.devUp then s else { s with devUp := true, devEpoch := s.devEpoch + 1 }
 
-/-- the initial state: the configuration record exists; with `seed` its creator gave it one
-    initial committed value, which `Create` puts into the (shared) side map. -/
 def seedPV : PV := { path := "/seed".toList, value := "0".toList, deleted := false, index := 0 }
 
-def initSys (seed : Bool) : Sys :=
-  { cfg := { ver := 1 }, side := if seed then [("/seed".toList, seedPV)] else [] }
+/-- the initial state: the configuration record exists (nobody in the repository creates v3
+    configurations, the creator is the harness).  `seed = 0`: no initial value, `Committed.Values`
+    reads back nil; `seed = 1`: the creator embedded one initial committed value with `UpdateStatus`;
+    `seed = 2`: it passed the value to `Create`, which puts it into the (shared) side map. -/
+def initSys (seed : Nat) : Sys :=
+  { cfg := { ver := 1, cValues := if seed = 1 then [("/seed".toList, seedPV)] else [] },
+    side := if seed = 2 then [("/seed".toList, seedPV)] else [] }
 
 /-! ## The step function of the theorems -/
 
